@@ -8,63 +8,63 @@ import SigV4.Lemmas.Time
 namespace SigV4.C16
 
 /-- Completeness of the matcher: every lexically well-formed rendering is matched, with its fields. -/
-theorem matchIso_render (t : IsoText) (h : t.wf) : matchIso t.render = some t.toFields := by
-  sorry
+theorem matchIso_render (t : IsoText) (h : t.wf) : matchIso t.render = some t.toFields :=
+  SigV4.matchIso_render t h
 
 /-- Soundness of the matcher: whatever it matches is a well-formed rendering — nothing before,
 nothing after, no missing zone designator, no other shape. -/
 theorem matchIso_sound (s : Bytes) (f : IsoFields) (h : matchIso s = some f) :
-    ∃ t : IsoText, t.wf ∧ s = t.render ∧ f = t.toFields := by
-  sorry
+    ∃ t : IsoText, t.wf ∧ s = t.render ∧ f = t.toFields :=
+  SigV4.matchIso_sound s f h
 
 /-- The parser accepts exactly the well-formed renderings of real calendar date-times and gives
 them the reference value (offset applied, fraction truncated to nanoseconds). -/
 theorem parseIso_iff (s : Bytes) (v : Int) :
-    parseIso s = some v ↔ ∃ t : IsoText, t.wf ∧ t.civilValid ∧ s = t.render ∧ v = t.value := by
-  sorry
+    parseIso s = some v ↔ ∃ t : IsoText, t.wf ∧ t.civilValid ∧ s = t.render ∧ v = t.value :=
+  SigV4.parseIso_iff s v
 
 /-- Out-of-range fields, non-existent dates and leap seconds are refused. -/
-theorem parseIso_rejects (t : IsoText) (h : t.wf) (hbad : ¬ t.civilValid) : parseIso t.render = none := by
-  sorry
+theorem parseIso_rejects (t : IsoText) (h : t.wf) (hbad : ¬ t.civilValid) : parseIso t.render = none :=
+  SigV4.parseIso_rejects t h hbad
 
 /-- The value does not depend on the textual form: two well-formed valid texts with the same
 reference value parse to the same instant. -/
 theorem parseIso_text_independent (t t' : IsoText) (h : t.wf) (h' : t'.wf) (c : t.civilValid) (c' : t'.civilValid)
-    (hv : t.value = t'.value) : parseIso t.render = parseIso t'.render := by
-  sorry
+    (hv : t.value = t'.value) : parseIso t.render = parseIso t'.render :=
+  SigV4.parseIso_text_independent t t' h h' c c' hv
 
 /-- The civil-date conversions are mutually inverse (all dates of the proleptic Gregorian calendar). -/
 theorem civilFromDays_daysFromCivil (y m d : Int) (hm : 1 ≤ m ∧ m ≤ 12) (hd : 1 ≤ d ∧ d ≤ daysInMonth y m) :
-    civilFromDays (daysFromCivil y m d) = (y, m, d) := by
-  sorry
+    civilFromDays (daysFromCivil y m d) = (y, m, d) :=
+  SigV4.civilFromDays_daysFromCivil y m d hm hd
 
 theorem daysFromCivil_civilFromDays (z : Int) :
     let c := civilFromDays z
-    daysFromCivil c.1 c.2.1 c.2.2 = z ∧ 1 ≤ c.2.1 ∧ c.2.1 ≤ 12 ∧ 1 ≤ c.2.2 ∧ c.2.2 ≤ daysInMonth c.1 c.2.1 := by
-  sorry
+    daysFromCivil c.1 c.2.1 c.2.2 = z ∧ 1 ≤ c.2.1 ∧ c.2.1 ≤ 12 ∧ 1 ≤ c.2.2 ∧ c.2.2 ≤ daysInMonth c.1 c.2.1 :=
+  SigV4.daysFromCivil_civilFromDays z
 
 /-- The compact UTC rendering denotes the instant truncated to whole seconds: parsing it back gives
 exactly that, for every instant whose UTC year is 0..9999. -/
 theorem compact_roundtrip (t : Int) (hy : 0 ≤ (utcDate t).1 ∧ (utcDate t).1 ≤ 9999) :
-    parseIso (compactUtc t) = some (t - t % NS_PER_SEC) := by
-  sorry
+    parseIso (compactUtc t) = some (t - t % NS_PER_SEC) :=
+  SigV4.compact_roundtrip t hy
 
 /-- Shape of the compact rendering: `YYYYMMDD'T'hhmmss'Z'`, 16 bytes, digits where digits belong. -/
 theorem compact_shape (t : Int) (hy : 0 ≤ (utcDate t).1 ∧ (utcDate t).1 ≤ 9999) :
     (compactUtc t).length = 16 ∧ (compactUtc t)[8]? = some 0x54 ∧ (compactUtc t)[15]? = some 0x5A ∧
-    (compactUtc t).take 8 = fmtDate (utcDate t) := by
-  sorry
+    (compactUtc t).take 8 = fmtDate (utcDate t) :=
+  SigV4.compact_shape t hy
 
 /-- The timestamp line of the string-to-sign is the compact UTC rendering of the parsed instant. -/
 theorem sts_timestamp_line (a : Authenticator) (sts : Bytes) (h : stringToSign a = .ok sts) :
     ∃ scope, sts = AWS4_HMAC_SHA256 ++ [0x0A] ++ compactUtc a.timestamp ++ [0x0A] ++ scope ++ [0x0A]
-      ++ hexLower a.creqSha := by
-  sorry
+      ++ hexLower a.creqSha :=
+  SigV4.sts_timestamp_line a sts h
 
 /-- A timestamp that does not parse yields the ISO-8601 error (IncompleteSignature, HTTP 400). -/
 theorem bad_timestamp_error (H : Bytes → Bytes) (c : CanonReq) (ap : AuthParams) (h : parseIso ap.timestampStr = none) :
-    authenticatorOf H c ap = .err .IncompleteSignature := by
-  sorry
+    authenticatorOf H c ap = .err .IncompleteSignature :=
+  SigV4.bad_timestamp_error H c ap h
 
 example : parseIso b!"20150830T123600Z" = some 1440938160000000000 := by decide
 example : parseIso b!"2015-08-30T12:36:00.5+01:30" = some 1440932760500000000 := by decide
